@@ -66,6 +66,9 @@ def send_all_summary(P, g):
     return (k, pk)
 
 
+ORDER_DESTROYING = ("swap_remove", "swap", "reverse", "sort", "sort_by", "sort_by_key", "sort_unstable", "sort_unstable_by",
+                    "sort_unstable_by_key", "rotate_left", "rotate_right", "retain", "retain_mut", "dedup", "dedup_by",
+                    "dedup_by_key", "truncate", "clear", "drain", "split_off", "fill", "resize", "pop", "remove")
 _KNOWN_FNS = None
 
 
@@ -417,6 +420,12 @@ def c01_r2(ctx):
     else:
         ctx.ok()
     vec = d.vars_of_operand(good[0].args[0])
+    # the order of the vector *is* the receiver order: nothing may re-order or thin it out
+    # before it is hashed (a sorted / de-duplicated list of hashes no longer says which source
+    # has which content)
+    for c2 in d.calls:
+        if c2.args and c2.name in ORDER_DESTROYING and d.vars_of_operand(c2.args[0]) == vec:
+            ctx.viol((d.id, "tickets-reordered", c2.name), "`%s` is applied to the received hashes before they are hashed into the sources hash: the sources hash no longer depends on which source has which content (two states that exchange the contents of two sources get the same key, and the stale target is reported up to date)" % c2.name, c2.where)
     # second loop: iterates that vector completely into input_ticket
     ins = d.calls_to("ticket::TicketFactory::input_ticket")
     ctx.inst("input_ticket", ins[0].where if ins else None)
@@ -977,3 +986,52 @@ def c03_r4(ctx):
         ctx.viol((f.id, "receiver-dropped"), "on some path the receiver of a new channel is not kept (the producer's send would fail)", ch.where)
     if not send_push or not f.every_iteration_calls(inner, [p.bb for p in send_push]):
         ctx.viol((f.id, "sender-dropped"), "on some path the sender of a new channel is dropped (the dependent's recv would fail)", ch.where)
+
+
+@rule("C05.R6", floor=5)
+def c05_r6(ctx):
+    """Every loop ends for a reason that can be named: each loop of a function reachable from
+    build, clean or serve is a `for` over an iterator (left when `next` yields None) or one of
+    the reviewed loops of `loops_reviewed.json` (with the reason it ends).  A loop of another
+    kind that is not listed - a `while` / `loop` introduced by a change - is an open obligation:
+    whether it can spin (e.g. retrying a file-system operation that keeps failing) is not
+    decided here."""
+    import json as _json
+    import os as _os
+    P = ctx.P
+    R = Roles(P)
+    with open(_os.path.join(_os.path.dirname(_os.path.abspath(__file__)), "loops_reviewed.json")) as fh:
+        table = _json.load(fh)["loops"]
+    roots = [R.entry("build").id, R.entry("clean").id]
+    try:
+        roots.append(R.entry("serve").id)
+    except Exception:
+        pass
+    opened = []
+    for fid in sorted(P.reachable_fns(roots)):
+        f = P.fns.get(fid)
+        if f is None or f.body.get("in_test") or f.kind == "promoted" or f.body["span"]["file"].endswith("system/fake.rs"):
+            continue
+        dom = f.dominators()
+        heads = set()
+        for a in f.live:
+            for h in f.succ[a]:
+                if h in dom.get(a, ()):
+                    heads.add(h)
+        it = {lp["header"] for lp in f.loops()}
+        other = sorted(h for h in heads if h not in it)
+        for h in sorted(heads & it):
+            ctx.inst("iterator loop in %s" % fid, f.where(h))
+            ctx.ok()
+        if not other:
+            continue
+        ctx.saw(f)
+        allowed = table.get(fid, {}).get("count", 0)
+        for k, h in enumerate(other):
+            ctx.inst("other loop in %s" % fid, f.where(h))
+            if k < allowed:
+                ctx.ok()
+            else:
+                opened.append(("%s|loop" % fid, "a loop that is not a `for` over an iterator and is not in the reviewed table: what makes it end is not decided (the obligation is open, not evidence of a violation)", f.where(h)))
+    if opened:
+        ctx.open_obligations = opened
